@@ -41,16 +41,19 @@ func (fri *filteringRefIterator) Next(rec record) (bool, error) {
 		}
 
 		if fri.doubleCheck {
-			it, err := fri.tab.SeekRef(ref.RefName)
+			name := ref.RefName
+			it, err := fri.tab.SeekRef(name)
 			if err != nil {
 				return false, err
 			}
 
 			ok, err := it.NextRef(ref)
-
-			// XXX !ok
-			if !ok || err != nil {
+			if err != nil {
 				return false, err
+			}
+			if !ok || ref.RefName != name {
+				// the ref was deleted in a newer table.
+				continue
 			}
 		}
 
